@@ -71,7 +71,11 @@ Proof.
     + inversion Hs; subst. split; [exact HK|apply pref_refl; exact (proj2 (proj2 (proj2 (proj2 (proj2 (proj2 HK))))))].
   - eapply K_handle_votes; [left; reflexivity|exact HK|exact Hs].
   - eapply K_handle_votes; [right; reflexivity|exact HK|exact Hs].
-  - cbn in Hb, Hadm, Hph. eapply K_handle_replay; [exact HK|exact HT|exact Hb|exact (proj1 Hadm)|exact Hph|exact Hs].
+  - cbn in Hb, Hadm, Hph. destruct (N.eq_dec res 0) as [E0|N0].
+    + eapply K_handle_replay; [exact HK|exact HT|exact Hb|exact (Hadm E0)|exact Hph|exact Hs].
+    + (* a rejected replay leaves the state as it was *)
+      assert (Es : s' = s) by (eapply replay_rejected_is_identity; [cbn [step]; exact Hs|exact N0]).
+      subst s'. split; [exact HK|apply pref_refl; exact (proj2 (proj2 (proj2 (proj2 (proj2 (proj2 HK))))))].
 Qed.
 
 (** * Restart on stores satisfying [SI] that are not behind given stores *)
